@@ -5,7 +5,7 @@ import time
 
 from . import common as C
 from . import oracles as O
-from . import stage_gen
+from . import stage_cli, stage_gen
 
 IMPORTS_ALL = ("From Moq Require Import Strs GoTypes TypeString VarName Registry Scope Gen TmplAst TmplExec "
                "MockSem MockSpec MockSeq_Proofs WellScoped.\n")
@@ -96,6 +96,29 @@ PROPS = {
                           thm("C13_initialism_any_case", "P_C13"), thm("C13_unnamed_rule", "P_C13"),
                           thm("C13_user_name_verbatim", "P_C13"), thm("C13_kept_partial", "P_C13")],
                 oracle=O.o_c13, known=[]),
+    "C14": dict(kind="gen", files=["Sites_Proofs.v", "gen/Sites.v"],
+                theorems=[thm("C14_map_range_sites", "Sites_Proofs")], oracle=O.o_c14,
+                known=["rename_order_dependent"]),
+    "C15": dict(kind="cli", files=["Cli.v", "Cli_Proofs.v", "gen/Skeletons.v", "SkeletonPins.v"],
+                theorems=[thm("C15_rm", "Cli_Proofs"), thm("pin_main_run", "Cli_Proofs"),
+                          thm("pin_moq_new", "Cli_Proofs")]),
+    "C16": dict(kind="gen", files=["Cli.v", "Cli_Proofs.v", "TmplClosed.v", "gen/Skeletons.v", "SkeletonPins.v"],
+                theorems=[thm("C16_dispatch", "Cli_Proofs"), thm("C16_noop_then_gofmt", "Cli_Proofs"),
+                          thm("C16_canonical", "Cli_Proofs"), thm("pin_mocker_format", "Cli_Proofs"),
+                          thm("pin_gofmt", "Cli_Proofs"), thm("pin_goimports", "Cli_Proofs"),
+                          thm("moq_template_marker_first", "TmplClosed"),
+                          thm("C16_marker_first_line", "TmplClosed")],
+                oracle=O.o_c16, known=[]),
+    "C17": dict(kind="cli", files=["Cli.v", "Cli_Proofs.v", "gen/Skeletons.v", "SkeletonPins.v"],
+                theorems=[thm("C17_fail_no_stdout", "Cli_Proofs"), thm("C17_fail_out_untouched", "Cli_Proofs"),
+                          thm("C17_success", "Cli_Proofs"), thm("C17_write_refuted", "Cli_Proofs"),
+                          thm("pin_main_run", "Cli_Proofs"), thm("pin_main_main", "Cli_Proofs"),
+                          thm("pin_mocker_mock", "Cli_Proofs")]),
+    "C18": dict(kind="cli", files=["Cli.v", "Cli_Proofs.v", "Sites_Proofs.v", "gen/Sites.v", "gen/Skeletons.v",
+                                   "SkeletonPins.v"],
+                theorems=[thm("C18_frame", "Cli_Proofs"), thm("C18_prefixes_only_created", "Cli_Proofs"),
+                          thm("C18_no_out", "Cli_Proofs"), thm("C18_effect_alphabet", "Sites_Proofs"),
+                          thm("pin_main_run", "Cli_Proofs"), thm("pin_moq_new", "Cli_Proofs")]),
     "C19": dict(kind="gen", files=["P_C19.v"], theorems=[], oracle=O.o_c19, known=["alias_resolution_diverges"]),
     "C20": dict(kind="gen", files=["P_C20.v"], theorems=[], oracle=O.o_c20, known=[]),
 }
@@ -111,7 +134,7 @@ def coq_obligations(ctx, spec):
     obs.append(dict(name="no Admitted/admit/Axiom/Parameter/Conjecture/unsafe flags in the development",
                     ok=not bad, detail="; ".join(bad[:5])))
     needed = set(spec.get("files") or [])
-    needed |= set(GEN_MODEL_FILES if spec["kind"] == "gen" else MOCK_MODEL_FILES)
+    needed |= set({"gen": GEN_MODEL_FILES, "mock": MOCK_MODEL_FILES, "cli": ["Strs.v"]}[spec["kind"]])
     missing = sorted(f for f in needed if f in ctx.unbuilt)
     obs.append(dict(name="model and proof files of this property compile (full .vo build)", ok=not missing,
                     detail="not compiled: " + ", ".join(missing) if missing else ""))
@@ -140,6 +163,8 @@ def run(ctx):
     listed = [f for f in known_db.get("findings", []) if ctx.pid in f.get("properties", [])]
     listed_families = set(f["family"] for f in listed)
     obligations = coq_obligations(ctx, spec)
+    if spec["kind"] == "cli":
+        return run_cli(ctx, spec, obligations, listed)
     st = stage_gen.run(ctx.tools, ctx.seed, ctx.tier)
     cases = st["cases"]
     corr_breaks, failures, known_hits, notes = [], [], {}, []
@@ -203,7 +228,92 @@ def run(ctx):
                   len(nontrivial))
 
 
-def finish(ctx, spec, obligations, corr_breaks, failures, known_hits, listed, notes, st, evaluated, nontrivial):
+def cli_oracle(pid, o, groups):
+    """C15 / C17 / C18 read off one observed CLI run (property text, not the model)"""
+    fails = []
+    out = o["out"]
+    outkey = ("store/" + out) if out else None
+    go_on_stdout = ("package " in o["stdout"]) or ("Code generated" in o["stdout"])
+    if pid == "C18":
+        for k, (a, b) in sorted(o["changed"].items()):
+            if outkey and (k == outkey or (k.endswith("/") and outkey.startswith(k) and a is None and b == "dir")):
+                continue
+            if outkey and o["fault"] == "out-is-dir":
+                pass
+            fails.append(("moq changed %s (%s -> %s) although -out is %s" % (k, a, b, out), "unexpected change"))
+    if pid == "C17":
+        if o["rc"] != 0:
+            if go_on_stdout:
+                fails.append(("failing run wrote Go source to standard output", "stdout on failure"))
+            if not o["stderr"].strip():
+                fails.append(("failing run printed no diagnostic", "no diagnostic"))
+            if outkey and outkey in o["changed"]:
+                a, b = o["changed"][outkey]
+                if not (o["rm"] and b is None):
+                    fails.append(("failing run changed the -out file (%s -> %s)" % (a, b), "out file changed on failure"))
+            created = [k for k, (a, b) in o["changed"].items() if a is None and k != outkey]
+            if created and "gen" in (o.get("fail_stage") or "gen"):
+                pass
+        else:
+            if out:
+                if o["out_after"] is None:
+                    fails.append(("successful run left no file at -out", "no output file"))
+                elif o["ref_rc"] == 0 and len(o["out_after"]) != len(o["out_after_full_ref"]) if False else False:
+                    pass
+            elif not go_on_stdout:
+                fails.append(("successful run without -out printed nothing", "no output"))
+            if out and o.get("out_matches_ref") is False:
+                fails.append(("the -out file is not exactly the complete output", "file content differs from the output"))
+    if pid == "C15":
+        if o.get("regen_same") is False:
+            fails.append(("running the same command again over moq's own output changed the file (or failed: %s)"
+                          % o.get("regen_err", "")[:120], "regeneration not a fixed point"))
+        if o["rm"] and out:
+            g = groups.get((out, tuple(o["args"]), tuple(o["flags"]), o["fault"]))
+            if g and len(set(g)) > 1:
+                fails.append(("with -rm the result depends on the prior content of -out: %s" % sorted(set(g)),
+                              "-rm depends on prior content"))
+    return fails
+
+
+def run_cli(ctx, spec, obligations, listed):
+    st = stage_cli.run(ctx.tools, ctx.seed, ctx.tier)
+    corr_breaks, failures = [], []
+    if st["errors"]:
+        corr_breaks.append(dict(what="Coq evaluation of the CLI scenarios failed", detail=st["errors"][0][-500:]))
+    groups = {}
+    for o in st["obs"]:
+        if o["rm"] and o["out"] and o["fault"] != "syntax-error":
+            groups.setdefault((o["out"], tuple(o["args"]), tuple(o["flags"]), o["fault"]), []).append(
+                "%s/%s" % (o["rc"], o["observed"]))
+    distinct = set()
+    for o in st["obs"]:
+        distinct.add(o["observed"] + "|" + str(o["fault"]) + "|" + str(o["prior"]) + "|" + str(o["rm"]))
+        if o["model"] != o["observed"]:
+            corr_breaks.append(dict(what="model of main.run and the real CLI disagree",
+                                    case=dict(name=o["name"], model=o["model"], observed=o["observed"])))
+        fails = cli_oracle(ctx.pid, o, groups)
+        if fails:
+            failures.append(dict(case=dict(case=dict(id=o["name"], args=o["args"], pkg="", stub=False, skip=False,
+                                                     resets=False, out=o["out"], rm=o["rm"], prior=o["prior"],
+                                                     fault=o["fault"], flags=o["flags"]),
+                                           text=o.get("out_after"), facts={}, src={}),
+                                 fails=fails, families=[]))
+    pseudo = dict(cases=[], stats=dict(scenarios=len(st["obs"])), timing=st["timing"])
+    pseudo["cases"] = [dict(case=dict(id=o["name"], args=o["args"], pkg="", stub=False, skip=False, resets=False),
+                            kind="rc=%d" % o["rc"], verdict="ok" if o["model"] == o["observed"] else "DIFF",
+                            families=[]) for o in st["obs"]]
+    return finish(ctx, spec, obligations, corr_breaks, failures, {}, listed, [], pseudo, len(st["obs"]), len(distinct),
+                  rule="scenarios = prior state of the -out path (absent, own output, output for an older interface, "
+                       "garbage) x -rm x {stdout, file in the package, file before the sources, file in missing "
+                       "directories} x failure stage (arguments, load, lookup of the k-th name, non-interface, "
+                       "format, out path is a directory, parent is a file); each runs the real moq binary on a "
+                       "fresh scratch module, snapshots the whole tree before/after, and is compared with "
+                       "Cli.run evaluated by vm_compute; distinct by (outcome, fault, prior, rm)")
+
+
+def finish(ctx, spec, obligations, corr_breaks, failures, known_hits, listed, notes, st, evaluated, nontrivial,
+           rule=None):
     pid = ctx.pid
     for f in listed:
         n = len(known_hits.get(f["family"], []))
@@ -245,7 +355,7 @@ def finish(ctx, spec, obligations, corr_breaks, failures, known_hits, listed, no
         trusted_base=TRUSTED_BASE,
         obligation_list=[dict(name=o["name"], ok=o["ok"], detail=o["detail"][:200]) for o in obligations],
         evaluations=evaluated, distinct_nontrivial=nontrivial,
-        rule="cases = template shape space (10 interfaces x flag combinations) + every interface of /repo's "
+        rule=rule or "cases = template shape space (10 interfaces x flag combinations) + every interface of /repo's "
              "testpackages + seeded random packages (vh/gen.py); each is run through the real moq (in-process, built "
              "from /repo) and through the Coq model; non-trivial = produced at least one mock; distinct by "
              "(source files, arguments, flags)",
